@@ -32,7 +32,40 @@ def import_serif():
     return serif
 
 
-def reset_globals():
+def warmup():
+    """A fixed workload run at the start of every work unit, so that every case is executed in a process
+    whose library has already been USED (module-level memos, registered dialects, caches are filled by
+    calls on other objects first).  Nothing is checked here; failures are ignored."""
+    import io
+    from datetime import date, datetime
+    import serif
+    from serif import Vector, Table, read_csv
+    jobs = [
+        lambda: [Vector([x, None]).__setitem__(0, None) for x in (1, 1.5, "a", True, date(2020, 1, 1), 1j)],
+        lambda: [Vector([a, b]) for a, b in ((1, 2.5), (True, 1), (None, 1.5), (1, "a"), (date(2020, 1, 1), datetime(2020, 1, 1)))],
+        lambda: Vector([1, None, 3]) * Vector([1, 1, 0.5]),
+        lambda: Vector([1, 2]).__setitem__(0, 1.5),
+        lambda: [read_csv(io.StringIO("a;b\n1;2\n"), delimiter=d) for d in (";", "|", ",")],
+        lambda: Table({"k": [1, 1, 2], "v": [1, None, 3]}).aggregate(over="k", sum_over="v", count_over="v"),
+        lambda: Table({"k": [1, 1, 2], "v": [1, None, 3]}).window(over="k", sum_over="v"),
+        lambda: Table({"k": [1, 2, 2]}).join(Table({"k": [2, 2], "p": [5, 6]}), "k", "k", expect="many_to_many"),
+        lambda: Table({"k": [2, 1]}).sort_by("k"),
+        lambda: (serif.set_repr_rows(4), repr(Vector(list(range(9)))), serif.set_repr_rows(None)),
+        lambda: Vector([5, 3]).bit_length(),
+        lambda: Vector([1, None]).isna(),
+    ]
+    for j in jobs:
+        try:
+            j()
+        except Exception:
+            pass
+    try:
+        serif.set_repr_rows(None)
+    except Exception:
+        pass
+
+
+def reset_globals(policy="fresh"):
     """Bring serif's process-wide state to its initial value (DESIGN §2.1)."""
     import serif
     from serif.alias_tracker import _ALIAS_TRACKER
@@ -41,7 +74,7 @@ def reset_globals():
     # fresh-only virtual identities for storage tuples: no address recycling inside a check
     # (the recycling hazard itself is owned and enumerated by C15)
     from . import valloc
-    valloc.install("fresh")
+    valloc.install(policy)
 
 
 # --------------------------------------------------------------------------------------
@@ -182,6 +215,9 @@ def _call(unit):
     warnings.simplefilter("ignore")
     try:
         reset_globals()
+        if os.environ.get("VERIF_NO_WARMUP") != "1":
+            warmup()
+            reset_globals()
         return _WORK_FN(unit)
     except BaseException as e:  # a harness crash must not look like "no violation"
         return crash_to_agg(e, unit)
